@@ -115,3 +115,65 @@ func VerifC10_RedirectChain() {
 		verifAssert(derr != nil, "a long chain is refused with an error")
 	}
 }
+
+// ---- the redirect as the client performs it: status + Location from the server
+
+var verifLocation string
+
+func verifRedirectOnce(cli *http.Client, req *http.Request) (*http.Response, error) {
+	res := &http.Response{StatusCode: 307, Header: http.Header{}, Body: http.NoBody, Request: req}
+	res.Header.Set("Location", verifLocation)
+	return res, nil
+}
+
+type verifRedirectTransport struct{}
+
+func (verifRedirectTransport) RoundTrip(req *http.Request) (*http.Response, error) {
+	return verifRedirectOnce(nil, req)
+}
+
+// VerifC10_RedirectLocation: DoWithRedirect with the Location header as the
+// server may spell it - absolute, scheme-relative ("//host/path") or
+// path-only: the request it builds for the redirect carries Authorization only
+// if it goes to the same host[:port], and https is never downgraded.
+func VerifC10_RedirectLocation() {
+	verifOverride("(*net/http.Client).Do", verifRedirectOnce)
+	verifOverride("github.com/rubyist/tracerx.Printf", func(format string, args ...interface{}) {})
+	schemes := []string{"https", "http"}
+	oldScheme := schemes[verifChoose("old.scheme", 2)]
+	oldHost := verifHost("old")
+	newHost := verifHost("new")
+	auth := "Basic dXNlcjpwYXNz"
+	req := &http.Request{Method: "POST", URL: &url.URL{Scheme: oldScheme, Host: oldHost, Path: "/objects/batch"}, Header: http.Header{}}
+	req.Header.Set("Authorization", auth)
+	wantScheme, wantHost := oldScheme, oldHost
+	switch verifChoose("location.kind", 3) {
+	case 0: // absolute
+		wantScheme = schemes[verifChoose("new.scheme", 2)]
+		wantHost = newHost
+		verifLocation = verifURL(wantScheme, newHost, "/redirected")
+	case 1: // scheme-relative: another host, same scheme
+		wantHost = newHost
+		verifLocation = verifURLRel(newHost, "/redirected")
+	case 2: // path only: same server
+		verifLocation = "/redirected"
+	}
+	c := &Client{}
+	cli := &http.Client{Transport: verifRedirectTransport{}, CheckRedirect: func(*http.Request, []*http.Request) error { return http.ErrUseLastResponse }}
+	newReq, res, err := c.DoWithRedirect(cli, req, "origin", nil)
+	if oldScheme == "https" && wantScheme == "http" {
+		verifCover("downgrade-refused")
+		verifAssert(err != nil && newReq == nil, "an https to http redirect is refused")
+		return
+	}
+	verifAssert(err == nil && res == nil && newReq != nil, "the redirect is followed with a new request")
+	verifAssert(newReq.URL.Host == wantHost && newReq.URL.Scheme == wantScheme, "to the host and scheme the Location names")
+	got := newReq.Header.Get("Authorization")
+	if wantHost != oldHost {
+		verifCover("redirect-to-other-host")
+		verifAssert(got == "", "Authorization is never forwarded to a different host or port")
+	} else {
+		verifCover("redirect-to-same-host")
+		verifAssert(got == auth, "Authorization is kept for the same host")
+	}
+}
